@@ -49,16 +49,21 @@ struct LcModel {
     }
     return true;
   }
-  void mask(bj::object&) const {}
+  void mask(bj::object& o) const {
+    if (!Options::store_filtration) for (auto& so : o.at("objs").as_array()) so.as_object().erase("filt");
+  }
 
   bj::object apply(const bj::object& act) {
     std::string op(act.at("op").as_string());
     bj::object out;
     int i = static_cast<int>(act.at("i").to_number<std::int64_t>());
     int j = act.contains("j") ? static_cast<int>(act.at("j").to_number<std::int64_t>()) : 0;
+    // The filtration cache is the user's to refresh after insertions / removals (documented); the observation reads
+    // filtration_simplex_range() and leaves the cache ALIVE, so that copies, assignments, moves and swaps meet targets and
+    // sources with a live cache.
     if (op == "construct") obj[i].reset(new ST());
-    else if (op == "insert") obj[i]->insert_simplex(ints(act.at("s")), static_cast<typename ST::Filtration_value>(act.at("f").to_number<double>()));
-    else if (op == "remove") obj[i]->remove_maximal_simplex(obj[i]->find(ints(act.at("s"))));
+    else if (op == "insert") { obj[i]->insert_simplex(ints(act.at("s")), static_cast<typename ST::Filtration_value>(act.at("f").to_number<double>())); obj[i]->clear_filtration(); }
+    else if (op == "remove") { obj[i]->remove_maximal_simplex(obj[i]->find(ints(act.at("s")))); obj[i]->clear_filtration(); }
     else if (op == "copy_construct") obj[i].reset(new ST(*obj[j]));
     else if (op == "copy_assign") { ST& a = *obj[i]; const ST& b = *obj[j]; a = b; }
     else if (op == "move_construct") obj[i].reset(new ST(std::move(*obj[j])));
@@ -80,6 +85,7 @@ struct LcModel {
       bool refused = false;
       if (delta == 0) {
         try { obj[i]->deserialize(block.get(), static_cast<std::size_t>(sz)); } catch (const std::exception&) { refused = true; }
+        obj[i]->clear_filtration();   // deserialisation inserts simplices
       } else {
         // a wrong length must be refused with an exception without reading outside the block.  The attempt runs in a
         // forked child: if the library reads garbage past the end, whatever it builds from it stays there.
@@ -107,6 +113,7 @@ struct LcModel {
       obj[i]->clear_filtration();   // documented: the filtration cache has to be refreshed by the user after modifications
       ss << *obj[i];
       ss >> *obj[j];
+      obj[j]->clear_filtration();   // operator>> inserts simplices
     } else out["exception"] = "unknown op " + op;
     return out;
   }
@@ -133,7 +140,20 @@ struct LcModel {
         for (auto& e : k) D = std::max<int>(D, static_cast<int>(e.as_object().at("s").as_array().size()) - 1);
         if (obj[i]->dimension() != D) failed.emplace_back("dimension() of slot " + std::to_string(i) + " is " + std::to_string(obj[i]->dimension()) + ", complex has " + std::to_string(D));
       }
-      objs.push_back(bj::object{{"live", static_cast<bool>(obj[i])}, {"k_set", k}});
+      bj::array fl;
+      if (obj[i]) {
+        if constexpr (Options::store_filtration) {
+          for (auto sh : obj[i]->filtration_simplex_range()) {
+            std::vector<int> sv;
+            for (auto v : obj[i]->simplex_vertex_range(sh)) sv.push_back(v);
+            std::sort(sv.begin(), sv.end());
+            fl.push_back(jarr(sv));
+          }
+        }
+      }
+      bj::object so{{"live", static_cast<bool>(obj[i])}, {"k_set", k}};
+      if (Options::store_filtration) so["filt"] = fl;
+      objs.push_back(so);
     }
     for (int i = 1; i <= g_slots; ++i) for (int j = i + 1; j <= g_slots; ++j)
       if (obj[i] && obj[j]) {
